@@ -165,14 +165,24 @@ func c15Decode[T any](c *c15ctx, data []byte, pre T, useDecoder bool, chunks []i
 	func() {
 		defer func() { pan = recover() }()
 		if failAt == c15Direct {
-			// the reader hands the raw bytes straight to the target's own UnmarshalJSON
-			err = any(&target).(json.Unmarshaler).UnmarshalJSON(data)
+			// the reader hands the raw bytes straight to the target's own UnmarshalJSON (and reuses its block afterwards)
+			block := append([]byte(nil), data...)
+			err = any(&target).(json.Unmarshaler).UnmarshalJSON(block)
+			for i := range block {
+				block[i] = '#'
+			}
 			return
 		}
 		if useDecoder {
 			err = json.NewDecoder(&shortReader{data: data, chunks: chunks, failAt: failAt}).Decode(&target)
 		} else {
-			err = json.Unmarshal(data, &target)
+			// the reader owns its block: it decodes from a private copy and reuses (overwrites) the block right afterwards,
+			// so a decoded value must not keep pointing into the bytes it was decoded from
+			block := append([]byte(nil), data...)
+			err = json.Unmarshal(block, &target)
+			for i := range block {
+				block[i] = '#'
+			}
 		}
 	}()
 	return target, err, pan
@@ -343,6 +353,23 @@ func c15Run[T any](c *c15ctx, v, pre, otherVal T, plain any, hasPlain bool, isOp
 			return
 		}
 	}
+	// ---- a nil target pointer handed to the type's own UnmarshalJSON is a programming error of the caller, not of the
+	// bytes: it must not panic ("decoding arbitrary bytes never panics")
+	if _, ok := any(&pre).(json.Unmarshaler); ok {
+		var np *T
+		var nerr error
+		var npan any
+		func() {
+			defer func() { npan = recover() }()
+			nerr = any(np).(json.Unmarshaler).UnmarshalJSON(rec)
+		}()
+		r.Probe("nil-receiver-UnmarshalJSON-calls")
+		if npan != nil {
+			r.Violate("decode-panic:"+c.name, "%s: UnmarshalJSON(%s) on a nil receiver panicked: %v", c.name, rec, npan)
+			return
+		}
+		_ = nerr // an error is the natural answer, but the property only says "never panics" (fp.Unit has nothing to store and accepts)
+	}
 	// ---- fault class
 	faulted, names := c15Faults(r, rec, other)
 	for i, data := range faulted {
@@ -410,7 +437,7 @@ func c15Opt[T any](r *sim.Run, defined bool, v T) fp.Option[T] {
 
 func execC15(r *sim.Run) {
 	r.Case = "record"
-	kind := r.Choose(20+c15FixN, "type")
+	kind := r.Choose(21+c15FixN, "type")
 	def := r.Choose(4, "defined") != 0
 	preDef := r.Choose(2, "preDefined") == 1
 	i1, i2, i3 := r.Choose(2001, "i1")-1000, r.Choose(7, "i2"), r.Choose(1<<20, "i3")
@@ -506,8 +533,14 @@ func execC15(r *sim.Run) {
 		c15Run(c, fp.None[fp.Unit](), c15Opt(r, preDef, fp.Unit{}), fp.None[fp.Unit](), nil, false, true)
 	case 16, 17, 18, 19:
 		c15Generated(c, kind, s1, s2, i1, i3, preDef)
-	case 20, 21, 22, 23, 24, 25, 26:
-		c15Fixture(c, kind-20, s1, s2, i1, i3, preDef)
+	case 20:
+		c.name = "Option[json.RawMessage]"
+		raws := []string{`{"a":1,"b":[true,null]}`, `"text"`, `12.5`, `[1,2,3]`, `{}`, `[]`, `true`}
+		raw := json.RawMessage(raws[i2%len(raws)])
+		v := c15Opt(r, def, raw)
+		c15Run(c, v, c15Opt(r, preDef, json.RawMessage(`"pre"`)), c15Opt(r, true, json.RawMessage(`0`)), any(raw), def, true)
+	case 21, 22, 23, 24, 25, 26, 27:
+		c15Fixture(c, kind-21, s1, s2, i1, i3, preDef)
 	default:
 		c.name = "*Option[int] inside struct pointer"
 		type holder struct {
